@@ -2,11 +2,13 @@ module verif/tools
 
 go 1.21
 
-require github.com/free5gc/nas v0.0.0
+require (
+	github.com/free5gc/nas v0.0.0
+	github.com/free5gc/openapi v1.0.9-0.20240730084323-449098e08462
+)
 
 require (
 	github.com/aead/cmac v0.0.0-20160719120800-7af84192f0b1 // indirect
-	github.com/free5gc/openapi v1.0.9-0.20240730084323-449098e08462 // indirect
 	github.com/golang-jwt/jwt/v5 v5.2.1 // indirect
 	github.com/sirupsen/logrus v1.8.1 // indirect
 	github.com/tim-ywliu/nested-logrus-formatter v1.3.2 // indirect
